@@ -19,6 +19,7 @@ import Klev.Flock
 import Klev.Gen.Facts
 import Driver.Bytes
 import Driver.NotifyDrv
+import Driver.BlockDrv
 open Klev Klev.Proto
 
 structure Side where
@@ -51,6 +52,8 @@ structure DState where
   bak  : Side := {}
   mh   : MhState := {}
   nt   : DNotify.NtState := {}
+  bl   : DBlock.BlState := {}
+  blPre : Option Side := none        -- the log as it was when the blocking log was closed
   crashPre : Spec := ⟨[], 0⟩          -- L0 state before the operation in flight
   crashOp : List String := []        -- the operation in flight (tokens)
   crashArmed : Bool := false
@@ -553,7 +556,7 @@ def processLine (st : DState) (raw : String) : DState :=
   if line = "" then st
   else if line.startsWith "#" then
     if line.startsWith "# hist" then
-      { st with main := {}, bak := {}, hists := st.hists + 1, ackW := 0, autosync := false, crashArmed := false }
+      { st with main := {}, bak := {}, hists := st.hists + 1, ackW := 0, autosync := false, crashArmed := false, bl := {}, blPre := none }
     else st
   else
     match line.splitOn " => " with
@@ -600,6 +603,67 @@ def processLine (st : DState) (raw : String) : DState :=
           let vs := judgeLoss st.main.spec st.ackW implToks
           let out := vs.foldl (fun o v => o.push s!"VIOL {st.line} {v} {lhs} w={st.ackW} impl={(String.intercalate " " implToks).take 300}") st.out
           { st with out := out, viols := st.viols + vs.length, counts := bump st.counts "loss.img" }
+        else
+        if op0.startsWith "bl." then
+          let implTxt := String.intercalate " " implToks
+          let st := { st with counts := bump st.counts op0 }
+          let specNext := (st.blPre.getD st.main).spec.next
+          match opToks with
+          | ["bl.wrap"] => { st with bl := DBlock.start st.main.spec.next, blPre := none }
+          | "bl.wait" :: _ :: lhsT => { st with bl := DBlock.wait st.bl lhsT }
+          | ["bl.cancel", i] => { st with bl := DBlock.cancel st.bl (i.toNat?.getD 0) }
+          | "bl.ret" :: i :: lhsT =>
+            let iN := i.toNat?.getD 0
+            let w : DBlock.Waiter := (st.bl.waiters[iN]?).getD default
+            let side := st.blPre.getD st.main
+            let implOk := implToks.head? == some "ok"
+            -- the read a returned call made, judged at this moment (model result and L0 relation)
+            let h := handle side lhsT implToks
+            let mres := DBlock.waiterRes st.bl iN
+            let model := match mres with
+              | some .nil => h.model
+              | some .ctxErr => "err ctx"
+              | some .errClosed => "err notifyclosed"
+              | some .none_ => "?"
+              | none => "blocked"
+            -- once the log is closed a woken read may fail; only successful reads are compared
+            let mdiff := model ≠ implTxt && !(st.bl.closed && !implOk && mres == some .nil)
+            let ownSpawn := st.bl.lastEv == s!"wait:{iN}"
+            let ownCancel := st.bl.lastEv == s!"cancel:{iN}"
+            let wakeEv := st.bl.lastEv == "pub" || st.bl.lastEv == "close"
+            let below := decide (w.off < specNext)      -- relative offsets are negative
+            let vs : List String :=
+              (if implOk then h.viols else []) ++
+              (if ownSpawn || ownCancel || wakeEv then [] else ["SpuriousWake"]) ++
+              (if ownSpawn && !below && implOk then [if st.bl.closed then "WaitAfterCloseSucceeds" else "ReturnedForNothing"] else []) ++
+              (if ownSpawn && !below && st.bl.closed && implTxt ≠ "err notifyclosed" then ["WaitAfterClose"] else []) ++
+              (if ownSpawn && below && !implOk && !st.bl.closed then ["ImmediateFails"] else []) ++
+              (if ownCancel && implTxt ≠ "err ctx" then ["CancelResult"] else []) ++
+              (if implTxt == "err panic" then ["NoPanic"] else [])
+            let out := if mdiff then st.out.push s!"DIFF {st.line} {lhs} impl={implTxt} model={model}" else st.out
+            let out := vs.foldl (fun o v => o.push s!"VIOL {st.line} {v} {lhs} impl={implTxt.take 300} ev={st.bl.lastEv}") out
+            let side' := if mres == some .nil && implOk then h.side else side
+            let st := if st.blPre.isSome then { st with blPre := some side' } else { st with main := side' }
+            { st with out := out, diffs := st.diffs + (if mdiff then 1 else 0), viols := st.viols + vs.length,
+                      bl := { st.bl with waiters := st.bl.waiters.set iN { w with implDone := true } } }
+          | ["bl.status"] =>
+            let implSt := match implToks with | "ok" :: rest => rest | _ => implToks
+            let model := DBlock.modelStatus st.bl
+            let mdiff := String.intercalate " " implSt ≠ model
+            let vs := (List.range st.bl.waiters.length).flatMap (fun j =>
+              match st.bl.waiters[j]?, implSt[j]? with
+              | some w, some tok =>
+                if tok.endsWith ":blocked" then
+                  (if decide (w.off < specNext) then ["LostWakeup"] else []) ++
+                  (if w.cancelled then ["CancelIgnored"] else []) ++
+                  (if st.bl.closed then ["StuckAfterClose"] else [])
+                else []
+              | _, _ => [])
+            let out := if mdiff then st.out.push s!"DIFF {st.line} {lhs} impl={implTxt} model=ok {model}" else st.out
+            let out := vs.foldl (fun o v => o.push s!"VIOL {st.line} {v} {lhs} impl={implTxt.take 300} ev={st.bl.lastEv}") out
+            { st with out := out, diffs := st.diffs + (if mdiff then 1 else 0), viols := st.viols + vs.length,
+                      bl := { st.bl with lastEv := "other" } }
+          | _ => { st with out := st.out.push s!"BADLINE {st.line} {line}" }
         else
         if op0.startsWith "nt." then
           let (n', model, vs) := DNotify.handle st.nt opToks implToks
@@ -666,6 +730,12 @@ def processLine (st : DState) (raw : String) : DState :=
             | "close", ["ok"] => { st with ackW := st.main.spec.next }
             | "open", ["ok"] => { st with autosync := optBool restOps "as" }
             | _, _ => st
+          -- the blocking wrapper: a successful Publish notifies with the offset it returned, Close closes the notifier first
+          let st := if isB || !st.bl.active then st else
+            match opName, implToks with
+            | "pub", ["ok", n] => { st with bl := DBlock.published st.bl (n.toInt?.getD 0) }
+            | "close", ["ok"] => { st with bl := DBlock.closedNow st.bl, blPre := some sd }
+            | _, _ => { st with bl := { st.bl with lastEv := "other" } }
           if isB then { st with bak := side' } else { st with main := side' }
     | _ => { st with out := st.out.push s!"BADLINE {st.line} {line}" }
 
